@@ -103,7 +103,7 @@ impl Property for P {
     fn cases(tier: Tier) -> u64 {
         match tier {
             Tier::Quick => 150_000,
-            Tier::Thorough => 1_500_000,
+            Tier::Thorough => 10_000_000,
         }
     }
     fn chunk(_t: Tier) -> u64 {
